@@ -793,7 +793,7 @@ func c17AcsMaps(run *PropRun) {
 			if r, ok := names[acsc[i]]; ok {
 				// the entry is later written verbatim (writeString): it must be the form the terminal understands, i.e.
 				// smacs / rmacs with any terminfo padding specification removed
-				want[r] = stripPadding(enter) + string(acsc[i+1]) + stripPadding(exit)
+				want[r] = stripPadding(enter) + acsc[i+1:i+2] + stripPadding(exit) // the glyph BYTE of the description (not the UTF-8 encoding of the code point with that number)
 			}
 		}
 		bad := ""
